@@ -51,6 +51,10 @@ def oracle(ctx, case, io):
         kind = st["kind"]
         hist = lambda: dict(case=replayable(dict(case, steps=case["steps"][:k + 1])), response=dict(status=res.get("status"), headers=res.get("headers")))
         o = canon_impl(st, res, SidMap())
+        if kind == "mput" and st.get("must_accept") and res["status"] != 201 and case["conf"].get("push", True) and not case["conf"].get("ro"):
+            ctx.violation("push of a well-formed image under the tag %r (%d characters, allowed by the tag grammar) answered %s" % (st["arg"], len(st["arg"]), res["status"]),
+                          hist(), "C03:valid-tag-refused")
+            return
         if kind == "mput" and res["status"] == 201:
             d = o["digest"]
             pr.add(d)
@@ -138,6 +142,41 @@ def oracle(ctx, case, io):
                 ctx.violation("paging walk n=%s did not terminate within 60 pages" % st["n"], hist(), "C03:walk-loop")
 
 
+def boundary_tags(w, rng):
+    """tags at the edges of the grammar [a-zA-Z0-9_][a-zA-Z0-9._-]{0,127}: the longest ones, one character ones, every kind of
+    character in every position; pushed, resolved, listed, paged, deleted - and strings just outside the grammar"""
+    repo = w.repo()
+    cfg = b"{}"
+    w.contents.add(cfg)
+    w.add(upload_post(repo, digest=dg("sha256", cfg), body=cfg))
+    if cfg not in w.blobs[repo]:
+        w.blobs[repo].append(cfg)
+    valid = ["a" * 128, "_" + "." * 127, "Z9_" + "-" * 124, "0" * 127 + "-", "_", "9", "A", "x" * 127, "a.b-c_d" * 18 + "ab"]
+    invalid = ["a" * 129, "." + "a" * 5, "-" + "a" * 127, "a" * 128 + ".", ""]
+    for t in rng.sample(valid, rng.randrange(2, 5)):
+        body = image_manifest(desc(MT_CFG, cfg), [], annotations={"edge": str(len(w.steps))})
+        w.contents.add(body)
+        k = w.add(manifest_put(repo, t, body, ctype=MT_OCI_M))
+        w.steps[k]["must_accept"] = True
+        w.manifests[repo].append((body, MT_OCI_M))
+        w.tags[repo].add(t)
+        w.add(manifest_get(repo, t, head=rng.random() < 0.3))
+        w.add(tag_list(repo, "1", rng.choice([None, t[:-1], t])))
+    w.walk_tags(repo)
+    for t in rng.sample(invalid, 2):
+        if t:
+            body = image_manifest(desc(MT_CFG, cfg), [], annotations={"edge": str(len(w.steps))})
+            w.contents.add(body)
+            w.add(manifest_put(repo, t, body, ctype=MT_OCI_M))
+            w.add(manifest_get(repo, t))
+    for t in sorted(w.tags[repo]):
+        if len(t) > 100 and rng.random() < 0.5:
+            w.add(manifest_delete(repo, t))
+            w.tags[repo].discard(t)
+            w.add(manifest_get(repo, t))
+    w.walk_tags(repo)
+
+
 def make_cases(ctx, first):
     n, steps = (400, 45) if ctx.tier == "quick" else (12000, 60)
     # (Close() of the directory store collects every open repository; withsubj=False keeps that collection from removing anything
@@ -156,6 +195,8 @@ def make_cases(ctx, first):
             for r_ in w.repos:
                 w.walk_tags(r_)
             w.probe()
+        if i % 8 in (5, 6):
+            boundary_tags(w, ctx.rng)
         w.run(len(w.steps) + steps // 2)
         w.probe()
         cases.append(dict(id=first + i, conf=conf, steps=w.steps, contents=sorted(w.contents)))
